@@ -10,11 +10,11 @@ What is transcribed, statement by statement:
   (`^(?:…)$`, `re.I`, `.match`) for a *fixed* registry (the history of a registry is C14's subject);
 * `cssutils/css/property.py`  `Property.validate` (:414-540) — the verdict, the log lines are dropped;
   `_isValidating` (:91-97), the calls that depend on it (`_setName` :249, `_setCssText` :185);
-* `cssutils/css/cssstyledeclaration.py` `__nnames` (:214-223), `getProperty` (:432-454), `getProperties`
-  (:393-429), `_getValid` (:732-734), `_getValidating` (:708-717);
+* `cssutils/css/cssstyledeclaration.py` `getProperties(all=True)`, `_getValid` (:749-751),
+  `_getValidating` (:725-734);
 * `cssutils/css/cssstylerule.py` `_getValid` (:272-274); `cssutils/css/cssfontfacerule.py` `_getValid` (:179-188);
-  `cssutils/css/cssstylesheet.py` `_getValid` (:928-934);
-* `cssutils/serialize.py` `_valid` (:392-394) and the `validOnly` guard of `do_Property` (:980).
+  `cssutils/css/cssstylesheet.py` `_getValid`; `cssmediarule.py`, `csspagerule.py`, `marginrule.py` `valid`;
+* `cssutils/serialize.py` `_valid` (:396-398) and the `validOnly` guard of `do_Property` (:992).
 
 A property enters the model as what `validate` reads of it: normalised name, `Property.value` (the comment-free
 serialisation of the value, produced by the value parser and serializer — K4, not modelled here), normalised
@@ -53,7 +53,7 @@ def sortStrs (l : List Str) : List Str := l.foldr insertSorted []
 
 /-! ## acceptance by a compiled pattern -/
 
-/-- `bool(LazyRegex('^(?:…)$', re.I)(value))` = `pattern.match(value) is not None` (util.py:1015-1027):
+/-- `bool(LazyRegex('^(?:…)$', re.I | re.ASCII)(value))` = `pattern.match(value) is not None` (util.py:1020-1032):
 the translated `Re` carries the `$` as `Re.eol` and the case-insensitivity in its classes. -/
 def accepts (r : Re) (s : Str) : Bool := !(r.ms s).isEmpty
 
@@ -229,34 +229,11 @@ deriving Repr, DecidableEq, Inhabited
 
 abbrev Block := List Item
 
-/-- the `Property` entries, in order (`getProperties(all=True)`, cssstyledeclaration.py:423-429) -/
+/-- the `Property` entries, in order (`getProperties(all=True)`, cssstyledeclaration.py) -/
 def allProps : Block → List Prop'
   | [] => []
   | .prop p :: r => p :: allProps r
   | .other :: r => allProps r
-
-/-- `__nnames` (cssstyledeclaration.py:214-223): scan from the end, keep the first sighting of each name,
-reverse again -/
-def nnamesRev : List Prop' → List Str → List Str
-  | [], names => names
-  | p :: r, names => if names.contains p.name then nnamesRev r names else nnamesRev r (names ++ [p.name])
-
-def nnames (b : Block) : List Str := (nnamesRev (allProps b).reverse []).reverse
-
-/-- `getProperty(name)` (cssstyledeclaration.py:443-454) over the reversed entries: the last `!important`
-(truthy priority) entry of that name, else the last entry -/
-def getPropertyRev (name : Str) : List Prop' → Option Prop' → Option Prop'
-  | [], found => found
-  | p :: r, found =>
-    if p.name == name then
-      if p.priority != [] then some p
-      else getPropertyRev name r (if found.isNone then some p else found)
-    else getPropertyRev name r found
-
-def getProperty (b : Block) (name : Str) : Option Prop' := getPropertyRev name (allProps b).reverse none
-
-/-- `getProperties()` (all=False, no name): the effective property of every name (:419-421) -/
-def effective (b : Block) : List (Option Prop') := (nnames b).map (getProperty b)
 
 /-- `all(...)` with short-circuit: stops at the first `False`, an exception propagates -/
 def allM (f : α → Except Err Bool) : List α → Except Err Bool
@@ -266,13 +243,11 @@ def allM (f : α → Except Err Bool) : List α → Except Err Bool
     | .ok false => .ok false
     | .ok true => allM f r
 
-/-- `CSSStyleDeclaration.valid` (cssstyledeclaration.py:732-734). `None.valid` would be an `AttributeError`;
-`effective_some` (Lemmas) shows that the case does not occur. -/
+/-- `CSSStyleDeclaration.valid` (cssstyledeclaration.py:749-751): `all(prop.valid for prop in
+self.getProperties(all=True))` — every entry of the block, in order -/
 def declValid (acc : π → Str → Option Bool) (reg : Registry π) (ff : Str) (fontFace : Bool) (b : Block) :
     Except Err Bool :=
-  allM (fun o => match o with
-    | some p => propValid acc reg ff fontFace p
-    | none => .ok false) (effective b)
+  allM (propValid acc reg ff fontFace) (allProps b)
 
 def fontFamily : Str := Proto.cps "font-family"
 def src : Str := Proto.cps "src"
@@ -299,28 +274,47 @@ def fontFaceValid (acc : π → Str → Option Bool) (reg : Registry π) (ff : S
 inductive Rule where
   | style (b : Block)
   | fontFace (b : Block)
-  /-- `@media`: has no `valid` attribute -/
+  /-- `@media` with its rules -/
   | media (rules : List Rule)
-  /-- `@page` (its margin rules carry further blocks): no `valid` attribute -/
+  /-- `@page`: its own block and the blocks of its margin rules -/
   | page (b : Block) (margins : List Block)
-  /-- comment, `@import`, `@charset`, `@namespace`, `@variables`, unknown rule -/
+  /-- comment, `@import`, `@charset`, `@namespace`, `@variables`, unknown rule: no `valid` attribute -/
   | other
 deriving Repr, Inhabited
 
-/-- `rule.valid` where the attribute exists (`hasattr(rule, 'valid')`, cssstylesheet.py:932):
-`CSSStyleRule.valid` = `self.style.valid`; `CSSFontFaceRule.valid` -/
+/-- `CSSPageRule.valid` (csspagerule.py `_getValid`): the rule's own block, then its margin rules
+(`MarginRule.valid` = `self.style.valid`) -/
+def pageValid (acc : π → Str → Option Bool) (reg : Registry π) (ff : Str) (b : Block) (ms : List Block) :
+    Except Err Bool :=
+  match declValid acc reg ff false b with
+  | .error e => .error e
+  | .ok false => .ok false
+  | .ok true => allM (declValid acc reg ff false) ms
+
+mutual
+/-- `rule.valid` where the attribute exists (`hasattr(rule, 'valid')`): `CSSStyleRule.valid` = `self.style.valid`
+(cssstylerule.py); `CSSFontFaceRule.valid`; `CSSMediaRule.valid` (the same loop as the sheet's);
+`CSSPageRule.valid` (own block, then the margin rules, `MarginRule.valid` = `self.style.valid`) -/
 def ruleValid (acc : π → Str → Option Bool) (reg : Registry π) (ff : Str) : Rule → Option (Except Err Bool)
   | .style b => some (declValid acc reg ff false b)
   | .fontFace b => some (fontFaceValid acc reg ff b)
-  | .media _ => none
-  | .page _ _ => none
+  | .media rs => some (rulesValid acc reg ff rs)
+  | .page b ms => some (pageValid acc reg ff b ms)
   | .other => none
+/-- `for rule in self.cssRules: if hasattr(rule, 'valid') and not rule.valid: return False` … `return True`
+(cssstylesheet.py `_getValid`, cssmediarule.py `_getValid`) -/
+def rulesValid (acc : π → Str → Option Bool) (reg : Registry π) (ff : Str) : List Rule → Except Err Bool
+  | [] => .ok true
+  | r :: rs => match ruleValid acc reg ff r with
+    | none => rulesValid acc reg ff rs
+    | some (.error e) => .error e
+    | some (.ok false) => .ok false
+    | some (.ok true) => rulesValid acc reg ff rs
+end
 
-/-- `CSSStyleSheet.valid` (cssstylesheet.py:928-934) -/
+/-- `CSSStyleSheet.valid` -/
 def sheetValid (acc : π → Str → Option Bool) (reg : Registry π) (ff : Str) (rules : List Rule) : Except Err Bool :=
-  allM (fun r => match ruleValid acc reg ff r with
-    | some v => v
-    | none => .ok true) rules
+  rulesValid acc reg ff rules
 
 /-! ## the property-level reading: "a rule or sheet is valid iff all its declarations are" -/
 
@@ -350,7 +344,7 @@ end
 
 /-! ## the validating flag and what it can reach -/
 
-/-- `CSSStyleDeclaration._getValidating` (cssstyledeclaration.py:708-717): the parent sheet's flag when the
+/-- `CSSStyleDeclaration._getValidating` (cssstyledeclaration.py:725-734): the parent sheet's flag when the
 block is attached to a rule of a sheet (`AttributeError` otherwise), else the block's own flag unless `None`,
 else `True` -/
 def declValidating (sheetFlag : Option Bool) (declFlag : Option Bool) : Bool :=
@@ -396,7 +390,7 @@ def storeProperty (acc : π → Str → Option Bool) (reg : Registry π) (ff : S
   let log2 := if validating then validateLog acc reg ff fontFace parsed.prop else []
   (parsed, log1 ++ log2)
 
-/-- `CSSSerializer._valid` + the guard of `do_Property` (serialize.py:392-394, :980) -/
+/-- `CSSSerializer._valid` + the guard of `do_Property` (serialize.py:396-398, :992) -/
 def serProperty (acc : π → Str → Option Bool) (reg : Registry π) (ff : Str) (fontFace : Bool) (validOnly : Bool)
     (s : Stored) : Except Err Str :=
   if !s.wellformed then .ok []
